@@ -3,7 +3,10 @@ use std::{collections::HashMap, sync::Arc, time::Duration};
 use emmylua_code_analysis::{EmmyLuaAnalysis, FileId, Profile};
 use log::{debug, info};
 use lsp_types::{Diagnostic, Uri};
+#[cfg(not(feature = "verif-hooks"))]
 use tokio::sync::{Mutex, RwLock};
+#[cfg(feature = "verif-hooks")]
+use crate::verif::{Mutex, RwLock};
 use tokio_util::sync::CancellationToken;
 
 use super::{ClientProxy, ProgressTask, StatusBar};
